@@ -21,6 +21,8 @@ def exn_class(e):
     import struct
     import websocket
     from websocket import _exceptions as X
+    if type(e).__name__ == "SpinDetected":
+        return "Other:SpinDetected"
     if isinstance(e, X.WebSocketProtocolException):
         return "Protocol"
     if isinstance(e, X.WebSocketPayloadException):
